@@ -282,8 +282,24 @@ def _succ(fn, bb, prune, consts=None):
                     return [nxt] if not fn.blocks[nxt]['cleanup'] else []
             # a switch on the discriminant of a value whose variant is known
             for s in fn.blocks[bb]['stmts']:
-                if s['k'] == 'assign' and s['p']['l'] == dl and not s['p']['pr'] and s['rv']['k'] == 'discr' and not [e for e in s['rv']['p']['pr'] if e['k'] != 'deref']:
-                    src = s['rv']['p']['l']
+                if s['k'] == 'assign' and s['p']['l'] == dl and not s['p']['pr'] and s['rv']['k'] == 'discr':
+                    pl = s['rv']['p']
+                    # `match (mode, found)`: the discriminant of a field of a tuple built right here from the parameter
+                    for _hop in range(3):
+                        prj = [e for e in pl['pr'] if e['k'] != 'deref']
+                        if not prj:
+                            break
+                        dsx = _whole_defs(fn).get(pl['l'], [])
+                        if prj[0]['k'] == 'field' and len(dsx) == 1 and dsx[0] is not None and dsx[0]['k'] == 'agg' and dsx[0].get('ops') is not None \
+                                and prj[0].get('i') is not None and prj[0]['i'] < len(dsx[0]['ops']):
+                            o = dsx[0]['ops'][prj[0]['i']]
+                            if o.get('k') in ('move', 'copy'):
+                                pl = {'l': o['p']['l'], 'pr': list(o['p']['pr']) + prj[1:]}
+                                continue
+                        break
+                    if [e for e in pl['pr'] if e['k'] != 'deref']:
+                        continue
+                    src = pl['l']
                     v = prune.get(src) if src in prune else (consts or {}).get(src)
                     if v is None:
                         ps, _inv = param_source(fn, src)
